@@ -1,5 +1,6 @@
 """C18 Extension metadata codecs round-trip within format limits."""
 import ast
+import re
 
 from .. import AnalysisError
 from ..effects import strip_epoch
@@ -1002,5 +1003,67 @@ def rule_k(ctx):
     rule_no_buffer_is_hashed(ctx, 'C18.k')
 
 
+
+def rule_signedness(ctx):
+    """C18.l  A wire integer is read with the signedness it was written with.  Every length and counter of the
+    protocol is unsigned; a signed struct letter (b h i l q, or int.from_bytes(..., signed=True)) on the reading side
+    halves the range - a 16-bit length of 32768..65535 comes back negative and the slices that follow are taken from
+    the wrong end - unless the writer of the same owner packs with the same signed letter and so restricts the values
+    (pack_string / unpack_string).  Owners: each class with a parse method, and each module's pack* / serialize* versus
+    unpack* / parse* functions."""
+    rep = ctx.report
+    repo = ctx.repo
+
+    def signed_letters(fn):
+        out = set()
+        for n in walk_local(fn.node):
+            if isinstance(n, ast.Call) and isinstance(n.func, ast.Attribute) and isinstance(n.func.value, ast.Name) and \
+                    n.func.value.id == 'struct' and n.args and isinstance(n.args[0], ast.Constant) and \
+                    isinstance(n.args[0].value, str):
+                for ch in re.findall(r'[a-zA-Z?]', n.args[0].value):
+                    if ch in 'bhilq':
+                        out.add(ch)
+            if isinstance(n, ast.Call) and isinstance(n.func, ast.Attribute) and n.func.attr in ('from_bytes', 'to_bytes'):
+                for kw in n.keywords:
+                    if kw.arg == 'signed' and isinstance(kw.value, ast.Constant) and kw.value.value is True:
+                        out.add('signed')
+        return out
+
+    def is_reader(name):
+        return name.startswith(('parse', 'unpack', '_parse', '_unpack'))
+
+    def is_writer(name):
+        return name.startswith(('serialize', 'pack', '_serialize', '_pack', 'to_'))
+
+    owners = []
+    for m in repo.modules.values():
+        if not m.name.startswith('rsocket.') or m.name.startswith('rsocket.cli'):
+            continue
+        fs = [lst[-1] for lst in m.functions.values()]
+        if any(is_reader(f.name) for f in fs):
+            owners.append((m.name, [f for f in fs if is_reader(f.name)], [f for f in fs if is_writer(f.name)], fs[0]))
+        for lst in m.classes.values():
+            k = lst[-1]
+            ms = list(k.methods.values())
+            if any(is_reader(f.name) for f in ms):
+                owners.append((k.qualname.split(':')[-1], [f for f in ms if is_reader(f.name)],
+                               [f for f in ms if is_writer(f.name)], k))
+    rep.require('C18.l', 'codec owners (classes and modules with parse / unpack functions)', len(owners), 15)
+    n_signed = 0
+    for name, readers, writers, where in owners:
+        r = set().union(*[signed_letters(f) for f in readers]) if readers else set()
+        w = set().union(*[signed_letters(f) for f in writers]) if writers else set()
+        if r:
+            n_signed += 1
+        extra = r - w
+        if r or w:
+            rep.add('C18.l', '%s / integers read with the signedness they are written with' % name, where, not extra,
+                    'signed letters %s on both sides' % sorted(r) if not extra else
+                    'the reader uses the signed format %s and no writer of %s does: values with the top bit set come '
+                    'back negative' % (sorted(extra), name))
+    rep.require('C18.l', 'owners that read a signed field (pack_string / unpack_string)', n_signed, 1)
+
+
+
 RULES = [('C18.a', rule_a), ('C18.b', rule_b), ('C18.c', rule_c), ('C18.d', rule_d), ('C18.e', rule_e),
-         ('C18.f', rule_f), ('C18.g', rule_entries), ('C18.h', rule_h), ('C12.e', rule_g), ('C18.i', rule_i), ('C18.j', rule_j), ('C18.k', rule_k)]
+         ('C18.f', rule_f), ('C18.g', rule_entries), ('C18.h', rule_h), ('C12.e', rule_g), ('C18.i', rule_i), ('C18.j', rule_j), ('C18.k', rule_k), ('C18.l', rule_signedness)]
